@@ -47,6 +47,8 @@ def call(tt, case):
                 "amen_mv": lambda: tt.amen_mv(X, X)}[op]
     if op == "to_qtt":
         return lambda: X.to_qtt()
+    if op == "to_qtt_ms3":
+        return lambda: X.to_qtt(mode_size=3)
     if op == "sum":
         ax = list(case["axes"])
         return lambda: X.sum(ax if len(ax) > 1 else ax[0])
